@@ -585,16 +585,21 @@ consult(Item) :-
 
 use_module(Module) :-
     '$push_load_state_payload'(Evacuable),
-    catch('$call'(loader:use_module(Module, [], Evacuable)),
-          file_load_error,
-          '$call'(builtins:false)).
+    (  catch('$call'(loader:use_module(Module, [], Evacuable)),
+             file_load_error,
+             '$call'(builtins:false)) ->
+       '$pop_load_state_payload'(Evacuable)
+    ;  '$pop_load_state_payload'(Evacuable),
+       false
+    ).
 
 use_module(Module, Exports) :-
     '$push_load_state_payload'(Evacuable),
     (  Exports == [] ->
        remove_module(Module, Evacuable)
     ;  use_module(Module, Exports, Evacuable)
-    ).
+    ),
+    '$pop_load_state_payload'(Evacuable).
 
 current_module(Module) :-
     (  var(Module) ->
@@ -672,7 +677,10 @@ use_module(Module, Exports, Evacuable) :-
 consult_stream(Stream, PathFileName) :-
    '$push_load_state_payload'(Evacuable),
     file_load(Stream, PathFileName, Subevacuable),
-    '$use_module'(Evacuable, Subevacuable, _).
+    '$use_module'(Evacuable, Subevacuable, _),
+    '$pop_load_state_payload'(Evacuable),
+    false.        %% Clear the heap.
+consult_stream(_, _).
 
 :- non_counted_backtracking check_predicate_property/5.
 
